@@ -17,9 +17,12 @@ import (
 )
 
 type e2eCase struct {
-	Masters int      `json:"masters"`
-	Keys    int      `json:"keys"`   // distinct keys used
-	Rounds  [][]int  `json:"rounds"` // per round: key indices accessed (in order)
+	Masters int     `json:"masters"`
+	Keys    int     `json:"keys"`   // distinct keys used
+	Rounds  [][]int `json:"rounds"` // per round: key indices accessed (in order)
+	// Mix: instead of GETs only, a mix of SET / HSET / MGET / MSET / DEL / EVAL / PING / GET: values, fields and scripts
+	// are never keys and must never show up in the report
+	Mix bool `json:"mix,omitempty"`
 }
 
 func checkHotkeyE2E(c e2eCase) (nt bool, v *verdict) {
@@ -46,13 +49,42 @@ func checkHotkeyE2E(c e2eCase) (nt bool, v *verdict) {
 	used := map[string]bool{}
 	for ri, round := range c.Rounds {
 		var all []byte
-		for _, k := range round {
+		nreq := 0
+		for i, k := range round {
 			key := fmt.Sprintf("hk:%d", k%c.Keys)
+			key2 := fmt.Sprintf("hk:%d", (k+1)%c.Keys)
 			used[key] = true
-			all = ref.Encode(all, ref.Cmd("GET", key))
+			nreq++
+			if !c.Mix {
+				all = ref.Encode(all, ref.Cmd("GET", key))
+				continue
+			}
+			// a command mix: the key is not always the only argument, and values / fields / scripts are never keys
+			switch (k + i) % 8 {
+			case 0:
+				all = ref.Encode(all, ref.Cmd("SET", key, fmt.Sprintf("val:%d", i)))
+			case 1:
+				all = ref.Encode(all, ref.Cmd("HSET", "h"+key, fmt.Sprintf("fld:%d", i), fmt.Sprintf("val:%d", i)))
+				used["h"+key] = true
+			case 2:
+				all = ref.Encode(all, ref.Cmd("MGET", key, key2))
+				used[key2] = true
+			case 3:
+				all = ref.Encode(all, ref.Cmd("MSET", key, fmt.Sprintf("val:%d", i), key2, "val:x"))
+				used[key2] = true
+			case 4:
+				all = ref.Encode(all, ref.Cmd("DEL", key, key2))
+				used[key2] = true
+			case 5:
+				all = ref.Encode(all, ref.Cmd("EVAL", "return 1", "1", key, "val:arg"))
+			case 6:
+				all = ref.Encode(all, ref.Cmd("PING"))
+			default:
+				all = ref.Encode(all, ref.Cmd("GET", key))
+			}
 		}
 		go cl.Send(all, nil)
-		for range round {
+		for i := 0; i < nreq; i++ {
 			if _, err := cl.Recv(20 * time.Second); err != nil {
 				return nt, &verdict{"reply-missing", fmt.Sprintf("round %d: %v", ri, err)}
 			}
@@ -109,7 +141,7 @@ func checkHotkeyE2E(c e2eCase) (nt bool, v *verdict) {
 
 func TestHotkeyE2E(t *testing.T) {
 	rapid.Check(t, func(t *rapid.T) {
-		c := e2eCase{Masters: rapid.IntRange(1, 3).Draw(t, "masters"), Keys: rapid.SampledFrom([]int{1, 5, 49, 50, 51, 120}).Draw(t, "keys")}
+		c := e2eCase{Mix: rapid.Bool().Draw(t, "mix"), Masters: rapid.IntRange(1, 3).Draw(t, "masters"), Keys: rapid.SampledFrom([]int{1, 5, 49, 50, 51, 120}).Draw(t, "keys")}
 		for i, n := 0, rapid.IntRange(1, 4).Draw(t, "rounds"); i < n; i++ {
 			m := rapid.IntRange(1, 300).Draw(t, "m")
 			x := rapid.Uint64().Draw(t, "x") | 1
